@@ -91,7 +91,7 @@ pub fn c02(tier: Tier) -> i32 {
     crate::props::run_hist_runs(&mut report, "C02", &c02_runs(tier));
     // C01's histories include any available_memory: bulk scenarios under a memory hint, judged by exact search
     crate::props::bulk_props::run_into(&mut report, "C02", crate::props::bulk_props::c01_memory_scenarios(tier), if tier == Tier::Quick { 20 } else { 300 }, true);
-    report.cov("oracle", "for every built state: by_item for every stored id and by_vector for every lattice vector (stored or not), count in {0,1,2,n-1,n,n+1}, search_k = usize::MAX, judged against an f64 brute force over the reference model (length, distinctness, stored, reported distance within tolerance, order, no omitted item closer than a returned one)");
+    report.cov("oracle", "for every built state: by_item for every stored id and by_vector for every lattice vector (stored or not), count in {0,1,2,n-1,n,n+1,usize::MAX}, search_k = usize::MAX, judged against an f64 brute force over the reference model (length, distinctness, stored, reported distance within tolerance, order, no omitted item closer than a returned one)");
     report.finish()
 }
 
@@ -386,6 +386,8 @@ pub fn c15(tier: Tier) -> i32 {
     report.assume("LMDB/heed, roaring, rayon");
     crate::props::run_hist_runs(&mut report, "C15", &c15_runs(tier));
     c15_large_dimensions(&mut report, tier);
+    // the capacity clause under a memory hint (several insertion batches, left-over items poured into fresh sub-trees)
+    crate::props::bulk_props::run_into(&mut report, "C15", crate::props::bulk_props::c01_memory_scenarios(tier), if tier == Tier::Quick { 20 } else { 300 }, true);
     report.cov("oracle", "after every successful build (every transition, not only new states): items > capacity => n_trees() = requested, or >= 1 when automatic; 0 < items <= capacity => exactly 1; empty => 0; nns(1) with the default budget is non-empty on a non-empty index; if every build of the history used the same capacity no decoded bucket exceeds it; the default capacity is the dimension also for dimensions around and above 1024 (item counts dimension-1, dimension, dimension+1)");
     report.finish()
 }
